@@ -23,13 +23,13 @@ Tasks on ONE session: 2-3 request threads (``work``: begin, point, end; ``work_c
 (below / across the TTL) and a ``drain(); shutdown()`` event.
 
 Monitor (weakest reading of the statement; the session's *close hook* is ``state.close()``):
-  (a) at most one request is dispatching against the session at any time.  A ``work_close`` body counts as
-      dispatching against the session from its begin until ``ctx.close_session()`` has *returned* (after that
-      it has given the session up; its remaining body is not held against the property);
+  (a) at most one request is dispatching against the session at any time.  A request counts as dispatching
+      against the session from the first statement of its method body until the body returns or, for
+      ``work_close``, until it *calls* ``ctx.close_session()`` (from then on it has handed the session back;
+      nothing that happens during or after that call is held against the property on its behalf);
   (b) the close hook runs at most once, and exactly once if the session has left the registry when every
       started task ran to completion;
-  (c) the close hook never starts while another request is dispatching against the session (the request that
-      itself calls ``ctx.close_session()`` is, of course, allowed to be active);
+  (c) the close hook never starts while a request is dispatching against the session in the sense of (a);
   (d) no request body begins after the close hook has started — including a sequential probe request issued
       after the schedule finished;
   (e) no deadlock, no exception escaping a request.
@@ -74,7 +74,7 @@ ASSUMPTIONS = [
     "code of _sticky outside the trace window (token open/seal, contextvar installation, header emission) touches no shared session state and is executed atomically",
     "the reaper is modelled by running the real _ReaperThread.run loop as a scheduler task with a tick source in place of Event.wait(tick_seconds); ticks may land at any scheduling point",
     "time is read through the module global `time` of vgi_rpc.http.server._sticky (rebound to a virtual clock)",
-    "a work_close body stops counting as 'dispatching against the session' once ctx.close_session() returned",
+    "a request stops counting as 'dispatching against the session' when its body calls ctx.close_session() (weakest reading)",
 ]
 
 TTL = 100.0
@@ -305,6 +305,8 @@ def configs(ctx: Ctx) -> list[dict[str, Any]]:
             _cfg([W, C], 1, delete=True),
             # the same two-task harnesses with the wide window
             _cfg([W, C], 1, wide=True), _cfg([W], 1, delete=True, wide=True),
+            # release-before-remove inside ctx.close_session() needs two preemptions to put a body under the hook
+            _cfg([W, C], 2), _cfg([C, W], 2),
             # TTL expiry: reaper sweep after the clock crossed (one event), clock below the TTL, separate events
             _cfg([W], 1, ticks=1, adv=OVER, on_tick=True, env_cost=1),
             _cfg([W], 1, ticks=1, adv=UNDER, on_tick=True, env_cost=1),
@@ -318,7 +320,7 @@ def configs(ctx: Ctx) -> list[dict[str, Any]]:
             _cfg([W], 2, shutdown=True, env_cost=1), _cfg([W, W], 1, shutdown=True, env_cost=1),
             _cfg([W, C], 1, shutdown=True, env_cost=1), _cfg([W], 1, delete=True, shutdown=True, env_cost=1),
             # everything at once, one switch
-            _cfg([W], 1, delete=True, ticks=1, adv=OVER, on_tick=True, shutdown=True, env_cost=1),
+            _cfg([W], 1, ticks=1, adv=OVER, on_tick=True, shutdown=True, env_cost=1),
         ]
         return out
     two = ([W, W], [W, C], [C, W], [C, C])
@@ -326,34 +328,38 @@ def configs(ctx: Ctx) -> list[dict[str, Any]]:
         deep = k < 2  # [W,W] and [W,C] get the expensive bound-2 harnesses, the other two orders bound 1
         out.append(_cfg(reqs, 2))
         out.append(_cfg(reqs, 1, wide=True))
-        out.append(_cfg(reqs, 2 if deep else 1, delete=True))
+        out.append(_cfg(reqs, 2 if k == 1 else 1, delete=True))
         out.append(_cfg(reqs, 1, delete=True, wide=True))
         out.append(_cfg(reqs, 2 if deep else 1, ticks=1, adv=OVER, on_tick=True, env_cost=1))
         out.append(_cfg(reqs, 2, adv=OVER, env_cost=1))
         out.append(_cfg(reqs, 1, adv=OVER))
-        out.append(_cfg(reqs, 2 if deep else 1, shutdown=True, env_cost=1))
-    out.append(_cfg([W, W], 2, ticks=1, adv=OVER, env_cost=1))
+        out.append(_cfg(reqs, 2 if k == 1 else 1, shutdown=True, env_cost=1))
     for reqs in ([W], [C]):
+        deep = reqs == [W]
         out.append(_cfg(reqs, 2, delete=True))
-        out.append(_cfg(reqs, 2, delete=True, wide=True))
+        if deep:
+            out.append(_cfg(reqs, 2, delete=True, wide=True))
+            out.append(_cfg(reqs, 1, ticks=2, adv=OVER, on_tick=True))
         out.append(_cfg(reqs, 2, ticks=1, adv=OVER, env_cost=1))
         out.append(_cfg(reqs, 2, ticks=2, adv=OVER, on_tick=True, env_cost=1))
-        out.append(_cfg(reqs, 1, ticks=2, adv=OVER, on_tick=True))
         out.append(_cfg(reqs, 2, ticks=1, adv=UNDER, env_cost=1))
         out.append(_cfg(reqs, 1, shutdown=True))
         out.append(_cfg(reqs, 2, shutdown=True, env_cost=1))
-        out.append(_cfg(reqs, 2, delete=True, ticks=1, adv=OVER, on_tick=True, env_cost=1))
+        out.append(_cfg(reqs, 1, delete=True, ticks=1, adv=OVER, on_tick=True, env_cost=1))
         out.append(_cfg(reqs, 2, delete=True, adv=OVER, env_cost=1))
         out.append(_cfg(reqs, 1, delete=True, adv=OVER))
-        out.append(_cfg(reqs, 2, delete=True, shutdown=True, env_cost=1))
-        out.append(_cfg(reqs, 2, ticks=1, adv=OVER, on_tick=True, shutdown=True, env_cost=1))
+        out.append(_cfg(reqs, 2 if deep else 1, delete=True, shutdown=True, env_cost=1))
+        if deep:
+            out.append(_cfg(reqs, 2, ticks=1, adv=OVER, on_tick=True, shutdown=True, env_cost=1))
         out.append(_cfg(reqs, 1, delete=True, ticks=1, adv=OVER, on_tick=True, shutdown=True, env_cost=1))
     for reqs in ([W, W, W], [W, W, C], [W, C, W], [C, W, W], [W, C, C]):
         out.append(_cfg(reqs, 1))
-        out.append(_cfg(reqs, 1, delete=True))
-        out.append(_cfg(reqs, 1, ticks=1, adv=OVER, on_tick=True, env_cost=1))
-        out.append(_cfg(reqs, 1, shutdown=True, env_cost=1))
-    out.append(_cfg([W, W, W], 2))
+        if reqs in ([W, W, W], [W, W, C], [W, C, C]):
+            out.append(_cfg(reqs, 1, delete=True))
+        if reqs in ([W, W, W], [W, W, C]):
+            out.append(_cfg(reqs, 1, ticks=1, adv=OVER, on_tick=True, env_cost=1))
+        if reqs == [W, W, C]:
+            out.append(_cfg(reqs, 1, shutdown=True, env_cost=1))
     out.append(_cfg([W, W, C], 2))
     return out
 
@@ -364,6 +370,122 @@ def label(cfg: dict[str, Any]) -> str:
         + (f"+clock{cfg['adv']:g}{'@tick' if cfg['on_tick'] else ''}" if cfg["adv"] is not None else "")
         + ("+shutdown" if cfg["shutdown"] else "") + f"/b{cfg['bound']}e{cfg['env_cost']}{'w' if cfg['wide'] else 'n'}"
     )
+
+
+# Measured schedule counts per harness on the unchanged tree; used ONLY to balance the shards (longest-processing-
+# time-first assignment).  A wrong or missing number costs wall time, never coverage.
+WEIGHT: dict[str, int] = {'work+DELETE+clock101/b1e0n': 1242,
+ 'work+DELETE+clock101/b2e1n': 2503,
+ 'work+DELETE+reaper1+clock101@tick+shutdown/b1e1n': 2766,
+ 'work+DELETE+reaper1+clock101@tick/b1e1n': 327,
+ 'work+DELETE+reaper1+clock101@tick/b2e1n': 9269,
+ 'work+DELETE+shutdown/b1e1n': 285,
+ 'work+DELETE+shutdown/b2e1n': 7151,
+ 'work+DELETE/b1e0n': 36,
+ 'work+DELETE/b1e0w': 99,
+ 'work+DELETE/b2e0n': 473,
+ 'work+DELETE/b2e0w': 3954,
+ 'work+reaper1+clock101/b2e1n': 1278,
+ 'work+reaper1+clock101@tick+shutdown/b2e1n': 3380,
+ 'work+reaper1+clock101@tick/b1e1n': 31,
+ 'work+reaper1+clock99/b2e1n': 1278,
+ 'work+reaper1+clock99@tick/b1e1n': 27,
+ 'work+reaper2+clock101@tick/b1e0n': 3827,
+ 'work+reaper2+clock101@tick/b1e1n': 42,
+ 'work+reaper2+clock101@tick/b2e1n': 584,
+ 'work+shutdown/b1e0n': 1450,
+ 'work+shutdown/b2e1n': 230,
+ 'work+work+DELETE/b1e0n': 362,
+ 'work+work+DELETE/b1e0w': 944,
+ 'work+work+DELETE/b2e0n': 11668,
+ 'work+work+clock101/b1e0n': 820,
+ 'work+work+clock101/b2e1n': 1648,
+ 'work+work+reaper1+clock101@tick/b1e1n': 294,
+ 'work+work+reaper1+clock101@tick/b2e1n': 7522,
+ 'work+work+shutdown/b1e1n': 250,
+ 'work+work+shutdown/b2e1n': 5454,
+ 'work+work+work+DELETE/b1e0n': 4308,
+ 'work+work+work+reaper1+clock101@tick/b1e1n': 3480,
+ 'work+work+work+shutdown/b1e1n': 3096,
+ 'work+work+work/b1e0n': 312,
+ 'work+work+work/b2e0n': 8604,
+ 'work+work+work_close+DELETE/b1e0n': 4548,
+ 'work+work+work_close+reaper1+clock101@tick/b1e1n': 3762,
+ 'work+work+work_close+shutdown/b1e1n': 3402,
+ 'work+work+work_close/b1e0n': 370,
+ 'work+work+work_close/b2e0n': 12218,
+ 'work+work/b1e0n': 28,
+ 'work+work/b1e0w': 84,
+ 'work+work/b2e0n': 314,
+ 'work+work_close+DELETE/b1e0n': 402,
+ 'work+work_close+DELETE/b1e0w': 1026,
+ 'work+work_close+DELETE/b2e0n': 14492,
+ 'work+work_close+clock101/b1e0n': 1387,
+ 'work+work_close+clock101/b2e1n': 2742,
+ 'work+work_close+reaper1+clock101@tick/b2e1n': 9744,
+ 'work+work_close+shutdown/b1e1n': 292,
+ 'work+work_close+shutdown/b2e1n': 7576,
+ 'work+work_close+work+DELETE/b1e0n': 4548,
+ 'work+work_close+work+reaper1+clock101@tick/b1e1n': 3762,
+ 'work+work_close+work+shutdown/b1e1n': 3402,
+ 'work+work_close+work/b1e0n': 370,
+ 'work+work_close+work_close+DELETE/b1e0n': 4688,
+ 'work+work_close+work_close+reaper1+clock101@tick/b1e1n': 3944,
+ 'work+work_close+work_close+shutdown/b1e1n': 3604,
+ 'work+work_close+work_close/b1e0n': 408,
+ 'work+work_close/b1e0n': 38,
+ 'work+work_close/b1e0w': 107,
+ 'work+work_close/b2e0n': 536,
+ 'work_close+DELETE+clock101/b1e0n': 1639,
+ 'work_close+DELETE+clock101/b2e1n': 3453,
+ 'work_close+DELETE+reaper1+clock101@tick+shutdown/b1e1n': 2928,
+ 'work_close+DELETE+reaper1+clock101@tick/b2e1n': 10995,
+ 'work_close+DELETE+shutdown/b2e1n': 8673,
+ 'work_close+DELETE/b1e0n': 46,
+ 'work_close+DELETE/b2e0n': 701,
+ 'work_close+DELETE/b2e0w': 5332,
+ 'work_close+reaper1+clock101/b2e1n': 2210,
+ 'work_close+reaper1+clock101@tick+shutdown/b2e1n': 4658,
+ 'work_close+reaper1+clock101@tick/b1e1n': 41,
+ 'work_close+reaper1+clock99/b2e1n': 2462,
+ 'work_close+reaper2+clock101@tick/b1e0n': 18354,
+ 'work_close+reaper2+clock101@tick/b2e1n': 852,
+ 'work_close+shutdown/b1e0n': 5502,
+ 'work_close+shutdown/b2e1n': 378,
+ 'work_close+work+DELETE/b1e0n': 402,
+ 'work_close+work+DELETE/b1e0w': 1026,
+ 'work_close+work+clock101/b1e0n': 1387,
+ 'work_close+work+clock101/b2e1n': 2742,
+ 'work_close+work+reaper1+clock101@tick/b1e1n': 334,
+ 'work_close+work+shutdown/b1e1n': 292,
+ 'work_close+work+work+DELETE/b1e0n': 4548,
+ 'work_close+work+work+reaper1+clock101@tick/b1e1n': 3762,
+ 'work_close+work+work+shutdown/b1e1n': 3402,
+ 'work_close+work+work/b1e0n': 370,
+ 'work_close+work/b1e0n': 38,
+ 'work_close+work/b1e0w': 107,
+ 'work_close+work/b2e0n': 536,
+ 'work_close+work_close+DELETE/b1e0n': 422,
+ 'work_close+work_close+DELETE/b1e0w': 1062,
+ 'work_close+work_close+clock101/b1e0n': 1786,
+ 'work_close+work_close+clock101/b2e1n': 3776,
+ 'work_close+work_close+reaper1+clock101@tick/b1e1n': 354,
+ 'work_close+work_close+shutdown/b1e1n': 314,
+ 'work_close+work_close/b1e0n': 48,
+ 'work_close+work_close/b1e0w': 130,
+ 'work_close+work_close/b2e0n': 798}
+
+
+def assignment(cfgs: list[dict[str, Any]], nshards: int) -> list[int]:
+    """Deterministic LPT assignment config index -> shard."""
+    wts = [WEIGHT.get(label(c), 1500) for c in cfgs]
+    loads = [0] * nshards
+    assign = [0] * len(cfgs)
+    for i in sorted(range(len(cfgs)), key=lambda i: (-wts[i], i)):
+        j = loads.index(min(loads))
+        assign[i] = j
+        loads[j] += wts[i] + 40  # + fixed per-harness overhead
+    return assign
 
 
 # --------------------------------------------------------------------------------------
@@ -448,9 +570,14 @@ def window(cfg: dict[str, Any]) -> Any:
 
 
 def monitor(ev: list[tuple[Any, ...]]) -> list[tuple[str, str]]:
-    """Judge one event sequence; returns [(finding key, text)]."""
+    """Judge one event sequence; returns [(finding key, text)].
+
+    A request is *dispatching against the session* from its ``begin`` event until its ``end`` event or, for a
+    body that calls ``ctx.close_session()``, until the moment of that call (``closing``): from then on it has
+    handed the session back and whatever closes the session concurrently is not held against the property.
+    """
     out: list[tuple[str, str]] = []
-    active: dict[str, str] = {}  # task -> 'body' | 'closing'
+    active: set[str] = set()
     close_via: str | None = None
     closes = 0
     for i, e in enumerate(ev):
@@ -459,25 +586,17 @@ def monitor(ev: list[tuple[Any, ...]]) -> list[tuple[str, str]]:
             if close_via is not None:
                 out.append((f"dispatch-after-close:{close_via}", f"{who} began dispatching at event {i} after the close hook (via {close_via}) had started"))
             if active:
-                peer = sorted(active.items())[0]
-                ctxs = "peer-in-close_session" if peer[1] == "closing" else "peer-in-body"
-                out.append((f"concurrent-dispatch:{ctxs}", f"{who} began dispatching at event {i} while {peer[0]} was dispatching against the same session ({peer[1]})"))
-            active[who] = "body"
-        elif k == "closing":
-            active[who] = "closing"
-        elif k in ("released", "end"):
-            active.pop(who, None)
+                out.append(("concurrent-dispatch", f"{who} began dispatching at event {i} while {sorted(active)} was dispatching against the same session"))
+            active.add(who)
+        elif k in ("closing", "end"):
+            active.discard(who)
         elif k == "close":
             closes += 1
             via = e[2]
             if closes > 1:
-                out.append((f"close-hook-twice:{via}", f"close hook ran a second time (by {who} via {via}) at event {i}"))
-            others = {t: m for t, m in active.items() if not (t == who and m == "closing")}
-            if others:
-                # peer-in-body: the other request is plainly inside its method body; peer-in-close_session: it is
-                # inside its own ctx.close_session() call (has released the session lock but not yet removed the entry)
-                mode = "peer-in-body" if "body" in others.values() else "peer-in-close_session"
-                out.append((f"close-during-dispatch:{via}:{mode}", f"close hook started (by {who} via {via}) at event {i} while {sorted(others.items())} dispatching against the session"))
+                out.append((f"close-hook-twice:{via}", f"close hook ran a second time (by {who} via {via}, first via {close_via}) at event {i}"))
+            if active:
+                out.append((f"close-during-dispatch:{via}", f"close hook started (by {who} via {via}) at event {i} while {sorted(active)} dispatching against the session"))
             if close_via is None:
                 close_via = via
     return out
@@ -530,8 +649,10 @@ def oracle(ctx: Ctx, cfg: dict[str, Any], x: S.Exec) -> Any:
 def run(ctx: Ctx) -> None:
     ctx.extra.update({"schedules": 0, "max_bound_completed": 0, "configs": 0, "deadlocks": 0, "max_choice_points": 0,
                       "max_steps": 0, "close_hooks": 0, "dispatches": 0})
-    for cfg in configs(ctx):
-        if not ctx.mine():
+    cfgs = configs(ctx)
+    assign = assignment(cfgs, ctx.shard[1])
+    for i, cfg in enumerate(cfgs):
+        if not ctx.mine(assign[i]):
             continue
         st = S.explore(
             ctx, make_setup(cfg), lambda x, cfg=cfg: oracle(ctx, cfg, x), bound=cfg["bound"], label=label(cfg),
